@@ -916,12 +916,16 @@ static int cfg_setopt_value(cfg_t *cfg, cfg_opt_t *opt, const char *value, cfg_v
 						break;
 					default:
 						radix = 8;
-						int_str = &value[1];
 				}
+			}
+			/* A prefix must be followed by a digit, not by a sign or space */
+			if (int_str != value && !isxdigit((unsigned char)int_str[0])) {
+				cfg_error(cfg, _("invalid integer value for option '%s'"), opt->name);
+				return CFG_FAIL;
 			}
 			errno = 0;
 			i = strtol(int_str, &endptr, radix);
-			if (*endptr != '\0') {
+			if (endptr == int_str || *endptr != '\0') {
 				cfg_error(cfg, _("invalid integer value for option '%s'"), opt->name);
 				return CFG_FAIL;
 			}
@@ -944,7 +948,7 @@ static int cfg_setopt_value(cfg_t *cfg, cfg_opt_t *opt, const char *value, cfg_v
 			}
 			errno = 0;
 			f = strtod(value, &endptr);
-			if (*endptr != '\0') {
+			if (endptr == value || *endptr != '\0') {
 				cfg_error(cfg, _("invalid floating point value for option '%s'"), opt->name);
 				return CFG_FAIL;
 			}
